@@ -512,3 +512,45 @@ def mineVerdict (c : Ctx) (txs : List Tx) : Bool :=
     (match GV.Chain.applyBlock p c.head b with | .ok _ => true | .error _ => false)
 
 end GV.Pool
+
+/-! ## histories of pool operations (what the theorems of C14 quantify over) -/
+namespace GV.Pool
+open GV.Chain (UState)
+
+inductive Op
+  /-- `TransactionPool::add_to_pool(src, tx, stem)`; `stemOk`: the Dandelion relay accepted -/
+  | submit (src : Src) (tx : Tx) (stem stemOk : Bool)
+  /-- a block became the new head (status Next or Reorg): the chain is now at `head` / header
+  version `ver`; `reconcile_block` with the block's inputs and kernels -/
+  | block (head : UState) (ver : Nat) (ins kers : List Nat)
+  /-- `reconcile_reorg_cache` (the server calls it after `reconcile_block` on a reorg) -/
+  | reorgCache
+  /-- `evict_from_txpool` -/
+  | evict
+  /-- `truncate_reorg_cache` dropping the `n` oldest entries -/
+  | truncate (n : Nat)
+
+def step (cs : Ctx × TxPool) : Op → Ctx × TxPool
+  | .submit src tx stem ok => (cs.1, (cs.2.addToPool cs.1 src tx stem ok).1)
+  | .block head ver ins kers =>
+    let c' : Ctx := { cs.1 with head := head, ver := ver }
+    (c', (cs.2.reconcileBlock c' ins kers).1)
+  | .reorgCache => (cs.1, cs.2.reconcileReorgCache cs.1)
+  | .evict => (cs.1, cs.2.evictFromTxpool cs.1)
+  | .truncate n => (cs.1, cs.2.truncateCache n)
+
+def run (cs : Ctx × TxPool) (ops : List Op) : Ctx × TxPool := ops.foldl step cs
+
+/-- the operation can evict: an explicit eviction, or a submission while the txpool is over
+`max_pool_size` -/
+def evicts (cs : Ctx × TxPool) : Op → Prop
+  | .evict => True
+  | .submit _ _ _ _ => cs.2.txpool.length > cs.1.cfg.maxPool
+  | _ => False
+
+/-- no operation of the history evicts -/
+def NoEvict : Ctx × TxPool → List Op → Prop
+  | _, [] => True
+  | cs, op :: ops => ¬ evicts cs op ∧ NoEvict (step cs op) ops
+
+end GV.Pool
